@@ -2,6 +2,7 @@ package c02
 
 import (
 	"bytes"
+	"encoding/binary"
 	"fmt"
 	"runtime"
 	"sort"
@@ -115,6 +116,9 @@ func TestC02(t *testing.T) {
 		}
 		cases = append(cases, mon.CaseSpec{Name: "knock-real/" + sp.Proto + "/" + sp.Tran, Spec: sp})
 	}
+	for i, pn := 0, r.Pick(16, 600); i < pn; i++ {
+		cases = append(cases, mon.CaseSpec{Name: "pingpong", Spec: spec{Kind: "pingpong", Proto: []string{"push", "xpush", "pair", "xpair"}[i%4], Peers: 1 + (i/4)%2, WQ: []int{1, 8, 128}[rnd.Intn(3)], Msgs: 20000, Procs: []int{0, 2, 4, 16}[(i/8)%4]}})
+	}
 	r.Run(cases, func(c *mon.Case) {
 		sp := c.Spec.(spec)
 		if sp.Procs > 0 {
@@ -138,6 +142,8 @@ func TestC02(t *testing.T) {
 			runLateJoin(c, sp)
 		case "burst":
 			runBurst(c, sp)
+		case "pingpong":
+			runPingPong(c, sp)
 		case "race":
 			runRace(c, sp)
 		case "inflightloss":
@@ -1067,6 +1073,91 @@ func runBurst(c *mon.Case, sp spec) {
 	c.Count("idle_bursts", sp.Msgs)
 	c.Nontrivial()
 	c.Sig("burst|%s|%d|%d|%d", sp.Proto, npeers, sp.Senders, sp.WQ)
+}
+
+// runPingPong: one sender whose every Send is issued the instant the previous message is seen at the
+// peer (plus a PRNG spin of a few hundred nanoseconds), tens of thousands of times.  That is the moment at
+// which the socket's own sender goroutine has just found nothing to do and is about to go to sleep, so a
+// wake-up that is not properly ordered with that check is lost — and the accepted message then sits in the
+// queue, with a ready peer connected, until something else happens to come along.  Nothing else comes
+// along here: the next Send is only issued once this message has arrived.
+func runPingPong(c *mon.Case, sp spec) {
+	s := hx.MustSock(c, sp.Proto)
+	setQ(c, s, sp.WQ, 128)
+	name := hx.Uniq("c02p")
+	L := vt.L(name)
+	c.Cleanup(func() { vt.Forget(name) })
+	if err := s.Listen(vt.Addr(name)); err != nil {
+		c.Inconclusive("setup: %v", err)
+		return
+	}
+	w := hx.WatchPipes(s)
+	npeers := sp.Peers
+	if sp.Proto == "pair" || sp.Proto == "xpair" {
+		npeers = 1
+	}
+	var peers []*vt.Pipe
+	for i := 0; i < npeers; i++ {
+		peers = append(peers, L.Connect())
+		if !hx.WaitAttached(c, w, i+1, "vt peer") {
+			return
+		}
+	}
+	delivered := func() int {
+		n := 0
+		for _, p := range peers {
+			n += p.SentCount()
+		}
+		return n
+	}
+	body := make([]byte, 8)
+	sink := 0
+	for i := 1; i <= sp.Msgs && !c.Failed(); i++ {
+		binary.BigEndian.PutUint64(body, uint64(i))
+		if err := s.Send(body); err != nil {
+			c.Violate("push/send-error", "Send %d on a socket with %d ready peers returned %v", i, npeers, err)
+			return
+		}
+		got := false
+		for spin := 0; spin < 20000 && !got; spin++ {
+			got = delivered() >= i
+		}
+		if !got {
+			want := i
+			if !c.AwaitOrViolate("push/accepted-message-not-delivered:pingpong", fmt.Sprintf("message %d reaching one of the %d ready peers of the %s socket (each Send is issued as soon as the previous message has arrived; nothing else is sent)", want, npeers, sp.Proto), func() bool { return delivered() >= want }, mon.AwaitOpts{}) {
+				return
+			}
+		}
+		for k := c.Rand.Intn(400); k > 0; k-- {
+			sink += k
+		}
+	}
+	_ = sink
+	total := 0
+	for pi, p := range peers {
+		prev := uint64(0)
+		for _, x := range p.SentLog() {
+			if len(x.Body) != 8 {
+				c.Violate("queue/invented:pingpong", "peer %d got %x", pi, x.Body)
+				return
+			}
+			v := binary.BigEndian.Uint64(x.Body)
+			if v <= prev || v > uint64(sp.Msgs) {
+				c.Violate("queue/reordered:pingpong", "peer %d got message %d after message %d", pi, v, prev)
+				return
+			}
+			prev = v
+			total++
+		}
+	}
+	if total != sp.Msgs && !c.Failed() {
+		c.Violate("queue/delivered-twice:pingpong", "%d messages sent one at a time, %d deliveries", sp.Msgs, total)
+		return
+	}
+	c.Count("messages", total)
+	c.Count("pingpong_sends", sp.Msgs)
+	c.Nontrivial()
+	c.Sig("pingpong|%s|%d|%d", sp.Proto, npeers, sp.WQ)
 }
 
 // runInflightLoss: the connection goes away while a write on it is in progress.
